@@ -22,6 +22,7 @@ PROPS = {
                 assumptions=PY_SEM + [E5, 'sub-constructs raise errors whose path extends the path they were given (interface clause, established per class)']),
     'C05': dict(functional=True, generic=True, level='proof', trusted_base=[E5],
                 assumptions=PY_SEM + [E5, 'lengths/counts are non-negative and moduli >= 2 (documented exemption)']),
+    'C10': dict(functional=True, generic=False, level='proof', trusted_base=[], assumptions=PY_SEM),
     'C17': dict(functional=False, generic=True, level='proof', trusted_base=[E3],
                 assumptions=PY_SEM + ['threads: not explored; argued from the proved frames (no shared mutable state)']),
 }
